@@ -1,9 +1,16 @@
 """C01 — generated legal moves are exactly the legal moves of chess.
-Lean: Props/C01.lean (oracle = legality predicate; soundness of the acceptor `genCheck`; king-ray core).
-Tie: for every generated position the real MoveGen's six lists and per-move verdicts are dumped by the harness
-and judged by the proven acceptor running in the compiled Lean driver; FEN accept/reject + canonical FEN are
-compared too; sliding/king/knight/pawn attack tables, squares-between and direction tables are compared with the
-ray-walk definition exhaustively; perft cross-check on a few roots."""
+Lean: Props/C01.lean — (a) oracle = legality predicate, soundness of the acceptor `genCheck`, king-ray core;
+(b) theorems about the ALGORITHMS of moveGen.cpp, modelled in Chess/TexelGen*.lean on bitboards: sqAttacked / inCheck =
+spec, sliding attacks depend on the inner mask only (table comparison lifted to all occupancies), isLegal (all five
+paths) and removeIllegal = "king not attacked after the move", pseudoLegalMoves = movement rules without duplicates,
+pseudoLegalMoves + removeIllegal is a permutation of the legal moves.
+Tie: for every generated position (1) the real MoveGen's six lists and per-move verdicts are dumped by the harness and
+judged by the proven acceptor in the compiled Lean driver; (2) the same dump IN GENERATION ORDER (in-check flag,
+pseudo-legal list, isLegal and givesCheck per move, list after removeIllegal, evasions, captures, captures-and-checks) is
+compared line by line with the Lean model of the algorithms, after the driver has checked the hypotheses of the
+theorems (GenWF) on that position; FEN accept/reject + canonical FEN compared; sliding attack tables compared with the
+spec's AND the model's ray walk for the subsets of the implementation's own relevant-occupancy masks (compared with
+the model's inner masks), king/knight/pawn tables, squares-between and direction tables exhaustively; perft."""
 import os
 import vlib, chessgen
 
@@ -88,6 +95,8 @@ def run(ctx):
         return
     vlib.lean_obligations(ctx)
     ctx.assumptions += ["the rules of chess are those of lean/TexelVerif/Chess/Spec.lean (trusted text, perft-validated)",
+                        "generator model: Position's bitboards are the from-scratch bitboards of the board and makeMove's board effect is Chess.apply (both C02: Inv, makeMove_refines; makeMoveB is read as the board part of makeMove); "
+                        "`while (m) extractSquare(m)` visits set bits in ascending order; BitBoard::rook/bishopAttacks have the shape table[sq][f(occ & mask[sq])] (bitBoard.hpp:302-316, by reading); MoveList never overflows (256 entries)",
                         "class of the capture / capture-and-check generators: promotions to queen or knight only (rook/bishop under-promotions are deliberately omitted by the code)"]
     # 1. tables, exhaustive in thorough
     tl = table_lines(ctx, quick)
@@ -173,6 +182,7 @@ def run(ctx):
     ctx.cov["rule"] = ("positions = all positions of random legal games from the initial and seeded start positions (real generator used only to produce inputs) + synthetic placements "
                        "(random sparse/dense with promotion-consistent counts, pins, en-passant pins on rank/diagonal, castling through/into attacked squares, promotions with capture, checks and double checks); "
                        "distinct = distinct board+side+castling+ep; every position: FEN accept/reject and canonical FEN compared with the model, MoveGen dump judged by the acceptor; "
-                       "tables: rook/bishop attacks for subsets of the inner mask (all 107 648 in thorough) + random full occupancies, king/knight/pawn attacks, 64x64 direction and squares-between")
+                       "tables: rook/bishop attacks for subsets of the inner mask (all 107 648 in thorough) + random full occupancies, each against the spec's and the generator model's ray walk, the masks themselves, king/knight/pawn attacks, 64x64 direction and squares-between; "
+                       "every accepted position additionally: hypotheses GenWF of the generator theorems evaluated, ordered dump of the real MoveGen == Lean model of its algorithms")
     if not quick:
         vlib.leanchecker(ctx, ["TexelVerif.Props.C01"])
